@@ -4,9 +4,11 @@ mod engine;
 mod ffref;
 mod gens;
 mod interp;
+mod lalr_ref;
 mod loader;
 mod pipeline;
 mod props;
+#[macro_use]
 mod util;
 
 use engine::{drive, replay, seed_from_env, tier_from};
@@ -36,6 +38,7 @@ macro_rules! dispatch {
 fn main() {
     let args: Vec<String> = std::env::args().collect();
     let Some(id) = args.get(1) else { usage() };
+    util::capture_stdout();
     if id == "show" {
         show(&args[2], &args[3]);
         return;
@@ -47,14 +50,18 @@ fn main() {
     let idc = id.clone();
     std::thread::spawn(move || {
         std::thread::sleep(std::time::Duration::from_secs(limit));
-        println!("HARNESS-ERROR property={idc}: watchdog after {limit}s (inconclusive)");
+        crate::out!("HARNESS-ERROR property={idc}: watchdog after {limit}s (inconclusive)");
         std::process::exit(2);
     });
     let code = dispatch!(id.as_str(), args,
         "C01" => props::c01::C01,
         "C02" => props::c02::C02,
+        "C03" => props::c03::C03,
+        "C04" => props::c04::C04,
         "C05" => props::c05::C05,
         "C06" => props::c06::C06,
+        "C07" => props::c07::C07,
+        "C08" => props::c07::C08,
     );
     std::process::exit(code);
 }
@@ -64,19 +71,19 @@ fn show(g: &str, input: &str) {
     let b = match pipeline::build(&text, &pipeline::Opts::default()) {
         Ok(b) => b,
         Err(e) => {
-            println!("{e:?}");
+            crate::out!("{e:?}");
             return;
         }
     };
     let l = match loader::load(&b.parser_src) {
         Ok(l) => l,
         Err(e) => {
-            println!("LOAD ERR {e}\n{}", b.parser_src);
+            crate::out!("LOAD ERR {e}\n{}", b.parser_src);
             return;
         }
     };
-    println!("{:?}", l.tables.modes);
+    crate::out!("{:?}", l.tables.modes);
     let r = interp::run(&l, input, &interp::RunOpts::default(), 100000);
-    println!("{:?}\n{:?}\n{:?}", r.outcome, r.trace, r.tree);
-    println!("{:?}", interp::drain(&l, input, 1));
+    crate::out!("{:?}\n{:?}\n{:?}", r.outcome, r.trace, r.tree);
+    crate::out!("{:?}", interp::drain(&l, input, 1));
 }
